@@ -8,9 +8,10 @@ git diff -- barectf > /tmp/$NAME.patch
 [ -s /tmp/$NAME.patch ] || { echo "no change in $WT"; exit 2; }
 T1=$(PYTHONPATH="$WT" /venv/bin/python -m pytest -q -p no:cacheprovider -n 8 2>&1 | tail -1)
 sh demo/demo.sh >/tmp/$NAME.with.log 2>&1; RC_WITH=$?
-git stash push -q -- barectf
+# (no git stash: the stash is shared by every worktree of the repository)
+git apply -R /tmp/$NAME.patch
 sh demo/demo.sh >/tmp/$NAME.without.log 2>&1; RC_WITHOUT=$?
-git stash pop -q
+git apply /tmp/$NAME.patch
 echo "$NAME: tests with change: $T1 | demo rc with=$RC_WITH without=$RC_WITHOUT"
 D=/verif/seeded/$NAME; rm -rf "$D"; mkdir -p "$D"
 cp /tmp/$NAME.patch "$D/patch.diff"
@@ -21,7 +22,7 @@ cat > "$D/meta.json" <<EOM
  "property": "$PROP",
  "needs_to_manifest": "$NEEDS",
  "confirmed": {"test_suite_with_change": "$T1", "demo_exit_with_change": $RC_WITH, "demo_exit_without_change": $RC_WITHOUT,
-               "how": "pytest -n 8 in the scratch worktree with the change applied; demo/demo.sh with the change and after git stash"},
+               "how": "pytest -n 8 in the scratch worktree with the change applied; demo/demo.sh with the change and with the change reverted (git apply -R)"},
  "checks_run": "tools/try_seed.sh <worktree> <IDs> (isolated copy of /verif, VERIF_REPO=<worktree>)",
  "caught_by": "$CAUGHT"
 }
